@@ -45,7 +45,8 @@ Proof. exact sort_prefix_antitone. Qed.
 (* the next validator set: at most max_validators members, ordered by stake descending, all taken
    from the index (registered, stake > 0), and nobody left out has more stake than a member.
    (Caveat stated in the code: the scan reads only max + max/10 + 10 index entries; the model's
-   [scan] is what was read.) *)
+   [scan] is what was read. Equal stakes keep their scan order — the sort is stable — and the scan
+   order inside one 100k-XRD bucket is the database order of the hash-prefixed index key.) *)
 Theorem C42_active_set_shape : forall maxv scan,
   0 <= maxv ->
   (length (next_set maxv scan) <= Z.to_nat maxv)%nat /\
